@@ -252,7 +252,8 @@ fn after_ok_dispatch(timeout: Option<Duration>, elapsed: Duration) {
         let failed = w.dispatch_failed;
         for i in 0..w.srcs.len() {
             let s = &w.srcs[i];
-            if !s.spec.lifecycle {
+            if !s.spec.lifecycle || s.st == St::Limbo {
+                // (nothing is demanded of a source whose enable/disable/update failed)
                 continue;
             }
             let uid = s.uid;
@@ -573,7 +574,7 @@ fn run_inner(h: &History, cfg: &RunCfg) -> Outcome {
     W.with(|c| *c.borrow_mut() = Some(world));
     w(|w| {
         w.trace_on = cfg.trace;
-        w.allow_update_disabled = h.profile == "C07" || h.profile == "C05";
+        w.allow_update_disabled = h.profile == "C07" || h.profile == "C05" || h.profile == "C14";
         w.matrix = h.profile == "C08";
     });
     calloop::verif::set_yield_hook(Some(hist_hook));
